@@ -17,7 +17,7 @@ from vf.core import CaseResult, Ctx, Violation, hyp_run, exc_sig
 
 PROP_ID = 'C23'
 LEVEL = 'exploration'
-BUDGET = {'quick': 24000, 'thorough': 800000}
+BUDGET = {'quick': 24000, 'thorough': 480000}
 RULE = (
     'Hypothesis draws one of three case kinds. "tokens" (70%): a gap-free '
     'token combination (absolute ~user/workflow//cycle/task/job, partial, or '
